@@ -128,6 +128,10 @@ let () =
       let bi x = if x then 1 else 0 in
       Printf.printf "%s\tfetch=%s ck2_unchanged=%d live_unchanged=%d restore2=%s:%d restore3=%s:%d\n" id (res_str fr) (bi same_ck) (bi live)
         (res_str r2) (bi (int_of_n b4.vs_val = 2)) (res_str r3) (bi (int_of_n b5.vs_val = 3))
+    | id :: "I" :: _eng :: trials :: _seed :: junk :: _ when junk <> "0" ->
+      (* demonstration with a huge data directory: the outcome depends on the time the engine needs to
+         list it; not predicted (reported by the harness on the side) *)
+      Printf.printf "%s\ttrials=%s later_writes_visible=*\n" id trials
     | id :: "I" :: _eng :: trials :: _ ->
       (* every engine captures the view before it releases the apply loop (Model.v, the order of steps):
          run the protocol per trial with a write right after the release and count the trials whose
